@@ -258,30 +258,61 @@ def c15c(ctx, tu):
                "not every saturated expectation that matches the call is listed: " +
                ("an iteration can skip the matches() test" if not every_tested else
                 "a matching saturated expectation can be passed over without being printed"))
-        # live listing sits on the branch where no saturated expectation matched:
-        # every report_signature print must be preceded (dominated) by setting the flag tested there
-        guard = None
-        for bid in f.blocks:
-            c = cfg.cond_of(f, bid)
-            if c is None or cfg.term_kind(f, bid) != "if":
+        # live listing happens exactly when no saturated expectation matched - decided on the function's own
+        # bookkeeping, whatever it is (a flag, a counter, a helper's result): one iteration of the saturated loop is
+        # interpreted with the element matching / not matching, and the code after that loop is interpreted from
+        # each resulting state to see whether the live loop is entered
+        from rules.common import LoopModel, iter_calls, Oracle
+        from engine.table import Interp, Unknown
+        try:
+            lm = LoopModel(f, sat)
+            M = "trompeloeil::call_matcher_base::matches"
+
+            def orc(at, m):
+                return Oracle(calls=iter_calls(at, {M: m}), any_member=True, any_call=True, any_param=True).descend_into(tu)
+
+            def locals_of(it):
+                return {k: v for k, v in it.env.items() if not (isinstance(v, tuple) and v and v[0] in ("iter", "range", "opaque", "elem", "ptr"))}
+
+            if live["entry"] in cfg.reach(f, f.entry, avoid_blocks={lm.entry}):
+                ctx.ob("C15.c.either", A["no_match"], False, pattern=f.pat, unit=tu.name, inst=f.q,
+                       detail="the live-expectation listing is not restricted to the case where no saturated expectation "
+                       "matched: the live expectations are examined (and thereby marked as reported) before the "
+                       "saturated ones have been looked at")
                 continue
-            t, pol = lib_cond(c)
-            if isinstance(t, list) and t[:1] == ["var"] and live["head"] in cfg.reach(f, bid) \
-                    and bid not in sat["body"]:
-                guard = (bid, t[1], pol)
-        ok = False
-        if guard:
-            bid, var, pol = guard
-            # live loop only on the edge where the flag is false
-            idx_false = 1 if pol else 0
-            ok = cfg.edge_dominates(f, (bid, idx_false), live["head"])
-            # the flag is set true where a saturated match is printed
-            sets = cfg.events_in_blocks(f, sat["body"], lambda e: e["e"] == "assign" and e["lhs"][:2] == ["var", var]
-                                        and e["rhs"] == ["bool", True])
-            ok = ok and bool(sets)
-        ctx.ob("C15.c.either", A["no_match"], ok, pattern=f.pat, unit=tu.name, inst=f.q,
-               detail="" if ok else "the live-expectation listing is not restricted to the case where no "
-               "saturated expectation matched")
+            env0 = lm.pre_env(orc("elem", False))
+            r_no, it_no = lm.step(orc("elem", False), dict(env0), at="elem")
+            r_yes, it_yes = lm.step(orc("elem", True), dict(env0), at="elem")
+            why = None
+            if r_no[0] != "stop" or r_yes[0] != "stop":
+                why = "an iteration of the saturated listing does not come back for the next element"
+            states = [("no saturated expectation matched", dict(env0), True)]
+            if why is None:
+                states.append(("no saturated expectation matched", locals_of(it_no), True))
+                e1 = locals_of(it_yes)
+                states.append(("a saturated expectation matched", e1, False))
+                r2, it2 = lm.step(orc("elem", True), dict(e1), at="elem")
+                if r2[0] == "stop":
+                    states.append(("two saturated expectations matched", locals_of(it2), False))
+                r3, it3 = lm.step(orc("elem", False), dict(e1), at="elem")
+                if r3[0] == "stop":
+                    states.append(("a saturated expectation matched, a later one did not", locals_of(it3), False))
+            for what, env, want_live in states:
+                if why is not None:
+                    break
+                it = Interp(f, orc("end", False))
+                it.env.update(env)
+                it.env.update(lm.env_for("end", it))
+                r = it.run(start=lm.entry, stop_blocks={live["entry"]})
+                entered = (r == ("stop", live["entry"]))
+                if entered != want_live:
+                    why = "when %s the live expectations are %slisted" % (what, "" if entered else "not ")
+            ctx.ob("C15.c.either", A["no_match"], why is None, pattern=f.pat, unit=tu.name, inst=f.q,
+                   detail="" if why is None else "the live-expectation listing is not restricted to the case where no "
+                   "saturated expectation matched: " + why)
+        except Unknown as u:
+            ctx.ob("C15.c.either", A["no_match"], None, pattern=f.pat, unit=tu.name, inst=f.q,
+                   detail="cannot interpret: %s" % u)
     # per expectation: parameters that rejected the call, or the first failing WITH
     for f in tu.need("trompeloeil::call_matcher::report_mismatch", 3):
         n += 1
